@@ -1227,30 +1227,44 @@ func c03EnqueueStartedCheck(r *core.Run, rule string, a *svcAnchors, e *lockEngi
 func c03WorkerCountPositive(r *core.Run, rule string, af core.Field) {
 	p := r.P
 	n := 0
-	for _, ac := range core.FieldAccesses(p.FuncsOfPkg(""), func(f core.Field) bool { return f == af }) {
-		if ac.Kind != "store" {
-			continue
+	// positive: v, used at `at` (reached through the phi source src when v came through a phi), is a
+	// positive constant, a value tested to be positive on the way, or the result of a helper of the
+	// module all of whose returns are (positiveOrDefault(n, def))
+	var positive func(v ssa.Value, at ssa.Instruction, d int) string
+	positive = func(v ssa.Value, at ssa.Instruction, d int) string {
+		if d > 4 {
+			return "a value computed too deep to follow"
 		}
-		st := ac.Instr.(*ssa.Store)
-		n++
-		bad := ""
-		for _, src := range phiSources(st.Val) {
+		for _, src := range phiSources(v) {
 			if k, ok := core.ConstInt(src.V); ok {
 				if k < 1 {
-					bad = fmt.Sprintf("the constant %d", k)
+					return fmt.Sprintf("the constant %d", k)
 				}
 				continue
 			}
-			positive := false
-			for _, e := range srcEdges(st, src) {
+			if call, ok := core.Strip(src.V).(*ssa.Call); ok {
+				if cal := call.Common().StaticCallee(); cal != nil && len(cal.Blocks) > 0 && cal.Pkg != nil && strings.HasPrefix(cal.Pkg.Pkg.Path(), core.ModPath) && cal.Signature.Results().Len() == 1 {
+					bad := ""
+					for _, ret := range core.Returns(cal) {
+						if w := positive(ret.Results[0], ret, d+1); w != "" {
+							bad = w
+						}
+					}
+					if bad != "" {
+						return bad + " (returned by " + core.FuncName(cal) + ")"
+					}
+					continue
+				}
+			}
+			ok := false
+			for _, e := range srcEdges(at, src) {
 				cnd, succ := e.Norm()
-				bo, ok := cnd.(*ssa.BinOp)
-				if !ok {
+				bo, isB := cnd.(*ssa.BinOp)
+				if !isB {
 					continue
 				}
 				x, y, op := bo.X, bo.Y, bo.Op
 				if core.Strip(y) == core.Strip(src.V) {
-					// constant OP value  ->  value OP' constant
 					x, y = y, x
 					switch op {
 					case token.LSS:
@@ -1269,17 +1283,49 @@ func c03WorkerCountPositive(r *core.Run, rule string, af core.Field) {
 				}
 				truth := succ == 0
 				switch {
-				case op == token.GTR && truth && k >= 0, // v > 0
-					op == token.GEQ && truth && k >= 1,  // v >= 1
-					op == token.LEQ && !truth && k >= 0, // !(v <= 0)
-					op == token.LSS && !truth && k >= 1: // !(v < 1)
-					positive = true
+				case op == token.GTR && truth && k >= 0,
+					op == token.GEQ && truth && k >= 1,
+					op == token.LEQ && !truth && k >= 0,
+					op == token.LSS && !truth && k >= 1:
+					ok = true
 				}
 			}
-			if !positive {
-				bad = valDesc(src.V) + " without a test that it is positive"
+			if !ok {
+				// a helper's parameter that every call site binds to a positive constant (the default)
+				if prm, isP := core.Strip(src.V).(*ssa.Parameter); isP && p.IsPrivateHelper(prm.Parent()) {
+					all := true
+					idx := -1
+					for i, q := range prm.Parent().Params {
+						if q == prm {
+							idx = i
+						}
+					}
+					cs := p.CallersOf(prm.Parent())
+					for _, c := range cs {
+						if idx < 0 || idx >= len(c.Common().Args) {
+							all = false
+							continue
+						}
+						if k, isK := core.ConstInt(c.Common().Args[idx]); !isK || k < 1 {
+							all = false
+						}
+					}
+					if all && len(cs) > 0 {
+						continue
+					}
+				}
+				return valDesc(src.V) + " without a test that it is positive"
 			}
 		}
+		return ""
+	}
+	for _, ac := range core.FieldAccesses(p.FuncsOfPkg(""), func(f core.Field) bool { return f == af }) {
+		if ac.Kind != "store" {
+			continue
+		}
+		st := ac.Instr.(*ssa.Store)
+		n++
+		bad := positive(st.Val, st, 0)
 		r.Check(bad == "", rule, core.FuncName(ac.Fn), "worker-count-stored-positive", p.InstrPos(st), "the worker count is set to a positive constant or to a value tested to be positive", "the worker count can be set to "+bad+": with no worker the service subscribes and announces itself, every request and With callback is queued and none is ever run - no request gets a response")
 	}
 	if n == 0 {
